@@ -649,4 +649,36 @@ theorem fault_reported [Inhabited V] (C : Codec V) (s : St V) (F : Faults) :
   · intro h1 h2; simp [step, has, h1, h2]
   · intro f h1 h2 h3; simp [step, compute, computeRead, needsRead, h1, h2, h3]
 
+/-! ### reference-typed values: the codec may change between operations
+
+For a pointer-typed `V` the caller can mutate an object it handed to `Set` / received from `Get`; what
+`enc` yields for that reference then changes between operations.  A history with a codec per step
+models this. -/
+
+/-- Histories in which every operation runs with the codec of its moment. -/
+def runV [Inhabited V] (s : St V) : List (Codec V × Op V × Faults) → St V × List (Out V)
+  | [] => (s, [])
+  | (C, op, F) :: rest =>
+    let r := step C s op F
+    let (s', os) := runV r.st rest
+    (s', r.out :: os)
+
+/-- The raw bytes left by a sequence of (codec at that moment, operation, result): each successful
+write leaves the encoding — at the time of that call — of what it was given. -/
+def rawAfter (before : Option Bytes) : List (Codec V × Op V × Out V) → Option Bytes
+  | [] => before
+  | (C, op, o) :: rest => rawAfter (expectRaw C before (written op o)) rest
+
+theorem store_runV [Inhabited V] (s : St V) (h : List (Codec V × Op V × Faults)) :
+    (runV s h).1.store =
+      rawAfter s.store ((h.zip (runV s h).2).map fun x => (x.1.1, x.1.2.1, x.2)) := by
+  induction h generalizing s with
+  | nil => simp [runV, rawAfter]
+  | cons x xs ih =>
+    obtain ⟨C, op, F⟩ := x
+    have h1 := ih (step C s op F).st
+    simp only [runV, List.zip_cons_cons, List.map_cons, rawAfter]
+    rw [← store_step]
+    exact h1
+
 end Hive.Typed
